@@ -89,3 +89,9 @@ Proof. reflexivity. Qed.
 (* the pinned sniffer did crash: detect("1") *)
 Lemma srt_detect_index_refuted : exists s, s <> [] /\ is_crash (detect_srt_prefix s) = true.
 Proof. exists [49]. split; [discriminate|reflexivity]. Qed.
+
+(* the sniffing constants read from the working tree are the documented ones *)
+Lemma generated_constants_documented :
+  dfxp_marker = lit "</tt>" /\ vtt_marker = lit "WEBVTT" /\ sami_marker = lit "<sami" /\ srt_arrow = lit "-->" /\
+  mdvd_pattern = lit "{\d+}{\d+}" /\ scc_header = lit "Scenarist_SCC V1.0".
+Proof. repeat split; reflexivity. Qed.
